@@ -35,6 +35,9 @@ pub enum Op {
     /// always passes one): the ring has no current kick descriptor afterwards, whatever is
     /// raised on the one it gave up must not reach the backend
     KickNofd(usize),
+    /// SET_VRING_ERR: carries a descriptor like SET_VRING_KICK / SET_VRING_CALL but has no part
+    /// in the ring's state
+    Errfd(usize),
 }
 
 const ALPHA1: [Op; 8] = [
@@ -72,8 +75,9 @@ fn gen_history(t: &mut Tape, nrings: usize, deep: bool) -> Vec<Op> {
     let mut v = Vec::new();
     for _ in 0..n {
         let r = t.draw(nrings as u64) as usize;
-        v.push(match t.draw(15) {
+        v.push(match t.draw(16) {
             14 => Op::KickNofd(r),
+            15 => Op::Errfd(r),
             0 => Op::SetFeaturesNoPf,
             1 => Op::SetFeaturesPf,
             2 | 3 => Op::Kickfd(r),
@@ -193,6 +197,7 @@ fn run_v<V: VringT<GM<()>> + Clone + Send + Sync + 'static>(sim: &Sim, cfg: &Run
     let mut kickfds: Vec<Option<EventFd>> = (0..nrings).map(|_| None).collect();
     let mut callfds: Vec<Option<EventFd>> = (0..nrings).map(|_| None).collect();
     let mut oldfds: Vec<Vec<EventFd>> = (0..nrings).map(|_| Vec::new()).collect();
+    let mut errfds: Vec<EventFd> = Vec::new();
     {
         // an event storm for an inactive ring never reaches quiescence: that is a violation
         let mut st = sim.st();
@@ -275,6 +280,13 @@ fn run_v<V: VringT<GM<()>> + Clone + Send + Sync + 'static>(sim: &Sim, cfg: &Run
                 if let Some(old) = kickfds[r].take() {
                     oldfds[r].push(old);
                 }
+            }
+            Op::Errfd(r) => {
+                let fd = EventFd::new(libc::EFD_NONBLOCK).expect("eventfd");
+                if let Err(e) = vmm.fe.set_vring_err(r, &fd) {
+                    viol("control_message_failed", format!("{op:?}"), format!("step {step} {op:?}: {e:?}"));
+                }
+                errfds.push(fd);
             }
             Op::KickNofd(r) => {
                 let req = spec::FReq::SetVringKick { idx: r as u8, nofd: true };
@@ -386,6 +398,7 @@ fn run_v<V: VringT<GM<()>> + Clone + Send + Sync + 'static>(sim: &Sim, cfg: &Run
     drop(listener);
     drop(kickfds);
     drop(callfds);
+    drop(errfds);
     log.lock().unwrap().backend_req.clear();
     RunOut {
         desc,
